@@ -61,6 +61,13 @@ CLAIMED["C06"] = ("DESIGN.md §4 C06",
     "trusted: pysym; object store and protobuf records are attribute bags; outside: zip member order, compression method, "
     "package-folder form, chunk boundaries (C05)")
 
+CLAIMED["C08"] = ("DESIGN.md §4 C08",
+    "One step of the formula stack machine per node kind, driven through the real TableFormulas.formula dispatch with the "
+    "node type symbolic over the real enum and operands arbitrary symbolic strings: operator glyph and operand order, "
+    "function names over the real map, list/array joining, string/boolean/integer literals, qualified ranges; two-step "
+    "composition for all operator pairs. By induction over the post-fix array this covers programs of any depth.",
+    "trusted: pysym; nodes are attribute bags; model stub echoes reference text; outside: date literals, formula_ast, Numbers' own display")
+
 NOT_APPLICABLE = {}
 
 
